@@ -5,6 +5,15 @@ Contract on pytezos.rpc.node:RpcMultiNode.request with ghost request counter k:
     request:   requires I(k); the inner request goes to nodes[k mod n];
                ensures I(k+1) on normal AND on exceptional exit.
 P part: PyVC on the real method body, n and k symbolic (see run_P).  R part: all outcome sequences.
+
+R part, two observation levels:
+  index level  the inner nodes are replaced by recording stubs (distinguishes nodes that share a URI); requests through `request`
+  URL level    (widened by the input audit) nothing of pytezos is replaced: the real constructor builds the real inner RpcNode
+               objects from the URI list and only `requests.request` / `sleep` are stubbed; the observation is the URL that
+               receives each HTTP request - the property's own observation point.  URI lists: 1..4 distinct, given out of
+               alphabetical order, with REPEATED URIs, a single str; requests issued through request (GET/POST with kwargs) and the
+               get / post / put / delete wrappers in turn; an inner request that is retried (transient 5xx, several HTTP requests
+               to the same node) counts once; two live RpcMultiNode objects used alternately rotate independently.
 """
 import itertools
 from vlib.runner import Check
@@ -48,7 +57,95 @@ def _run_history(n_nodes, outcomes):
     return used
 
 
+HOWS = ['request:GET', 'get', 'post', 'request:POST', 'put', 'delete']
+URI_LISTS = {
+    'one': ['http://n0.invalid:8732'],
+    'str': 'http://single.invalid:8732',
+    'two': ['http://n0.invalid:8732', 'http://n1.invalid:8732'],
+    'three': ['http://n0.invalid:8732', 'http://n1.invalid:8732', 'http://n2.invalid:8732'],
+    'four': ['http://n0.invalid:8732', 'http://n1.invalid:8732', 'http://n2.invalid:8732', 'http://n3.invalid:8732'],
+    'unordered': ['http://zeta.invalid', 'http://alpha.invalid/', 'http://mid.invalid'],
+    'repeated-aba': ['http://a.invalid', 'http://b.invalid', 'http://a.invalid'],
+    'repeated-aa': ['http://a.invalid', 'http://a.invalid'],
+    'repeated-abba': ['http://a.invalid', 'http://b.invalid', 'http://b.invalid', 'http://a.invalid'],
+}
+
+
+class _Resp:
+    def __init__(self, status, body):
+        self.status_code, self._body = status, body
+        self.headers = {'content-type': 'application/json'}
+        import json
+        self.text = json.dumps(body)
+
+    def json(self, **kw):
+        return self._body
+
+
+def _issue(m, how, j):
+    if how.startswith('request:'):
+        kw = {} if j % 2 else {'params': {'j': j}, 'timeout': 3}
+        return m.request(how.split(':')[1], 'chains/main/x', **kw)
+    kw = {'params': {'j': j}} if j % 2 else {}
+    if how == 'post':
+        kw['json'] = {'j': j}
+    return getattr(m, how)('chains/main/x', **kw)
+
+
+def _run_urls(uri_lists, steps):
+    """Native run at the URL level.  uri_lists: one URI list (or str) per RpcMultiNode object; steps: [(object index, how, outcome)].
+    outcome: True | 'rpc' (404 -> RpcError) | 'exc' (the transport fails) | 'retried' (a transient 500 then 200: two HTTP requests).
+    -> per step the list of base URIs that received an HTTP request"""
+    import requests
+    import requests.exceptions
+    import pytezos.rpc.node as N
+    clients = [N.RpcMultiNode(u if isinstance(u, str) else list(u)) for u in uri_lists]
+    seen, script = [], []
+
+    def fake(*a, **kw):
+        seen.append(kw.get('url'))
+        o = script.pop(0)
+        if o == 'exc':
+            raise requests.exceptions.ConnectionError('scripted')
+        if o == 'rpc':
+            return _Resp(404, [{'id': 'rpc.not_found', 'kind': 'permanent'}])
+        if o == 'transient':
+            return _Resp(500, [{'id': 'node.mempool.busy', 'kind': 'temporary'}])
+        return _Resp(200, {'ok': True})
+    old_req, old_sleep = requests.request, N.sleep
+    requests.request, N.sleep = fake, (lambda d: None)
+    got = []
+    try:
+        for j, (ci, how, outcome) in enumerate(steps):
+            del seen[:]
+            script[:] = ['transient', True] if outcome == 'retried' else [outcome]
+            try:
+                _issue(clients[ci], how, j)
+            except Exception:   # noqa  the inner failure propagates to the caller
+                pass
+            got.append(list(seen))
+    finally:
+        requests.request, N.sleep = old_req, old_sleep
+    return got
+
+
+def _want_urls(uri_lists, steps):
+    count = [0] * len(uri_lists)
+    want = []
+    for ci, how, outcome in steps:
+        u = uri_lists[ci]
+        u = [u] if isinstance(u, str) else u
+        base = u[count[ci] % len(u)]
+        count[ci] += 1
+        want.append([base.strip('/') + '/chains/main/x'] * (2 if outcome == 'retried' else 1))
+    return want
+
+
 def replay(case):
+    if 'uris' in case:
+        steps = [tuple(x) for x in case['steps']]
+        got, want = _run_urls(case['uris'], steps), _want_urls(case['uris'], steps)
+        return got != want, f'HTTP requests went to {got}, expected {want} for steps {steps} on URI lists {case["uris"]}'
     n, outcomes = case['n_nodes'], case['outcomes']
     used = _run_history(n, outcomes)
     want = [i % n for i in range(len(outcomes))]
@@ -75,7 +172,48 @@ def run_R(ck: Check):
                                  wclass='index-not-advanced-after-exception' if n > 1 and outcomes[first - 1] is not True else f'other n={n}')
                     if sum(1 for v in ck.viol) > 3:
                         return
+    run_R_urls(ck, L)
     ck.exhaustive = True
+
+
+def run_R_urls(ck: Check, L):
+    ck.bound('uri_lists', {k: v for k, v in URI_LISTS.items()})
+    ck.rule('R (URL level): real constructor and inner nodes, only requests.request / sleep stubbed; every success / RpcError / '
+            'transport-failure sequence of length 1..L on each URI list (distinct, unordered, repeated URIs, single str), the '
+            'requests issued through request / get / post / put / delete in turn; retried inner requests; two clients used alternately')
+    nviol = [0]
+
+    def one(uris, steps, wclass):
+        got, want = _run_urls(uris, steps), _want_urls(uris, steps)
+        if got != want and nviol[0] < 4:
+            nviol[0] += 1
+            first = next(i for i, (a, b) in enumerate(zip(got, want)) if a != b)
+            ck.violation('RpcMultiNode.request::ensures.rotation_by_uri',
+                         f'request #{first} ({steps[first][1]}, client {steps[first][0]}) went to {got[first]} instead of {want[first]} '
+                         f'(URI lists {uris}, steps {steps})',
+                         case=dict(uris=uris, steps=[list(x) for x in steps]), replay='props.C28:replay', wclass=wclass)
+    for name, uris in URI_LISTS.items():
+        for ln in range(1, L + 1):
+            for c, outcomes in enumerate(itertools.product([True, 'rpc', 'exc'], repeat=ln)):
+                steps = [(0, HOWS[(c + j) % len(HOWS)], o) for j, o in enumerate(outcomes)]
+                nerr = ln - outcomes.count(True)
+                ck.evaluate(('url', name, ln, nerr), sample=dict(uris=[uris], steps=[list(x) for x in steps]) if nerr == 1 and ln == 3 and name == 'repeated-aba' and c == 1 else None)
+                one([uris], steps, f'url-level {name}')
+        # an inner request that is retried by the node counts as ONE request of the rotation
+        for ln in range(1, 4):
+            for c, outcomes in enumerate(itertools.product([True, 'retried', 'rpc'], repeat=ln)):
+                if 'retried' not in outcomes:
+                    continue
+                steps = [(0, HOWS[(c + j) % len(HOWS)], o) for j, o in enumerate(outcomes)] + [(0, 'request:GET', True)]
+                ck.evaluate(('url-retried', name, ln))
+                one([uris], steps, f'url-level retried {name}')
+    # two live clients used alternately: each rotates on its own count
+    for ua, ub in (('two', 'three'), ('three', 'three'), ('one', 'two'), ('repeated-aba', 'unordered')):
+        for pattern in ((0, 1, 0, 1, 0, 1), (0, 0, 1, 0, 1, 1), (1, 0, 0, 0, 1, 0)):
+            for outcomes in itertools.product([True, 'rpc', 'exc'], repeat=4):
+                steps = [(ci, HOWS[j % len(HOWS)], (outcomes + (True, True))[j]) for j, ci in enumerate(pattern)]
+                ck.evaluate(('url-two-clients', ua, ub, pattern))
+                one([URI_LISTS[ua], URI_LISTS[ub]], steps, f'two clients {ua}/{ub}')
 
 
 def run(ck: Check) -> int:
